@@ -509,7 +509,17 @@ func (w *World) execute(c *Call, pt *Point, dev Deviation) {
 		c.reply <- Reply{Err: fmt.Errorf("process %s is dead", c.Proc), Delay: FailLatency, ZK: ZKReply{Err: ErrConnectionClosed}}
 		return
 	case DevTargetDownBefore:
-		if c.Kind == "sql" {
+		if dev.Arg > 0 {
+			// Arg-th server (sorted by name) dies, whatever the call's target
+			var hs []string
+			for h := range w.Servers {
+				hs = append(hs, h)
+			}
+			sort.Strings(hs)
+			if dev.Arg-1 < len(hs) {
+				w.Servers[hs[dev.Arg-1]].Crash(w)
+			}
+		} else if c.Kind == "sql" {
 			if s := w.Servers[c.Target]; s != nil {
 				s.Crash(w)
 			}
